@@ -146,6 +146,55 @@ def run_history(hist, overlap=None, ch=None, short=False):
     return fs, ids, marks, rets
 
 
+def scan_during(hist, res):
+    """A second consumer scans the directory (DiskStorage.load(), as every Queue does at start-up) while the history runs: the
+    scan is started right after the k-th file-system effect, for every k.  Whatever it sees half-written, the operations
+    must still have their effect: at the end every acknowledged message is found intact by a fresh storage."""
+    import slimta.diskstorage as ds
+    fs0, ids0, marks0, rets0 = run_history(hist)
+    n = len(fs0.log)
+    for k in range(1, n + 1):
+        marks, rets, ids = [], [], {}
+        scans = []
+        with World(Chooser(), uuid_modules=UUID_MODULES, max_steps=50000) as w:
+            fs = memfs.MemFS()
+            memfs.bind(w, fs, chunk_size=48)
+            st = ds.DiskStorage('/q/env', '/q/meta', '/q/tmp')
+            st2 = ds.DiskStorage('/q/env', '/q/meta', '/q/tmp')
+
+            def scan():
+                try:
+                    scans.append(sorted(i for t, i in st2.load()))
+                except BaseException as e:
+                    scans.append(('raised', type(e).__name__))
+
+            def on_effect(j, k=k):
+                if j == k:
+                    gevent.spawn(scan)
+            fs.on_effect = on_effect
+
+            def body():
+                for i, op in enumerate(hist):
+                    marks.append([len(fs.log), None])
+                    rets.append(do_op(st, op, ids))
+                    marks[i][1] = len(fs.log)
+            gevent.spawn(body)
+            w.run_until_quiescent()
+        res.evaluations += 1
+        res.count('scans_during_operations')
+        m = len(fs.log)
+        rec = recover(fs.snapshot(m))
+        viols, inside = judge_crash(hist, ids, marks, m, rec)
+        res.outcome(('scan-during', tuple(hist), k, repr(scans)[:80]))
+        res.interesting(('scan-during', tuple(hist), k))
+        for sig, msg in viols:
+            res.violation(dict(sig, during='scan-overlapping-' + '+'.join(sorted(set(o for o, l in hist)))),
+                          'history %r with a directory scan (load()) started after effect %d/%d (%s): at the end %s; the scan saw %r'
+                          % (hist, k, n, fs0.log[k - 1][0], msg, scans), {'hist': [list(o) for o in hist], 'overlap': None, 'choices': None, 'k': k, 'scan_during': True})
+    res.states += n
+    res.transitions += n
+
+
 def recover(files, short_ch=None):
     """Fresh process over the crash snapshot: load(), get() of everything listed, then a fresh Queue."""
     import slimta.diskstorage as ds
@@ -491,6 +540,8 @@ def configs(tier, seed):
     # aio requests completing for fewer bytes than asked (legal): every placement of one (thorough: two) short completions
     for h in ([['write', 'A']], [['write', 'A'], ['inc', 'A']], [['write', 'A'], ['dlv', 'A'], ['ts', 'A']], [['write', 'A'], ['write', 'B'], ['rm', 'A']]):
         cfgs.append({'mode': 'short', 'hist': h, 'd': 1 if tier == 'quick' else 2})
+    for h in ([['write', 'A'], ['write', 'B']], [['write', 'A'], ['inc', 'A'], ['write', 'B'], ['dlv', 'B']], [['write', 'A'], ['ts', 'A'], ['rm', 'A'], ['write', 'B']]):
+        cfgs.append({'mode': 'scan-during', 'hist': h})
     # resumption by a real Queue restarted over 4 due messages: bounded/unbounded store pool, lazy listing, slow reads
     for sp in (None, 1, 2):
         for slow in (['load-step'], ['load-step', 'get'], ['load-step', 'set_timestamp']):
@@ -518,6 +569,10 @@ def run_config(cfg, tier, seed):
                     res.violation({'kind': 'memfs-conformance'}, 'history %r: %s' % (h, err), {'hist': [list(o) for o in h], 'overlap': None, 'choices': None, 'k': -1})
             if i % 97 == cfg['k']:
                 res.sample({'history': h, 'effect_log': [e for e, _ in fs.log]})
+    elif cfg['mode'] == 'scan-during':
+        hist = [tuple(o) for o in cfg['hist']]
+        scan_during(hist, res)
+        res.sample({'history': hist, 'scan_started_after_every_effect': True})
     elif cfg['mode'] == 'short':
         hist = [tuple(o) for o in cfg['hist']]
 
@@ -589,6 +644,11 @@ def replay(rep):
             return True, res.violations[0]['message']
         return False, 'every crash state of the queue run recovers what the queue owes'
     hist = [tuple(o) for o in rep['hist']] if rep.get('hist') else None
+    if rep.get('scan_during'):
+        scan_during(hist, res)
+        if res.violations:
+            return True, res.violations[0]['message']
+        return False, 'a directory scan overlapping the operations does not disturb them'
     if rep.get('recover_short'):
         fs0, ids0, marks0, rets0 = run_history(hist)
         rec = recover(fs0.snapshot(rep['k']), short_ch=Chooser(rep['choices']))
